@@ -31,7 +31,8 @@ can_guess = Fn(FI, "can_guess", impl="<'iter, 'ast, 'decls> ResolverContext<'ite
 get_output_position = Fn(FI, "get_output_position", impl="<'iter, 'ast, 'decls> ResolverContext<'iter, 'ast, 'decls>", slot="resolver", ret="res",
                key="ResolverContext::get_output_position", props=["C06", "C19", "C03"],
                requires=CTX_REQ,
-               ensures=[C("outp_plus_position", "res == (match bank_of(defs, self.bank_ref).output_offset { Some(o) => Some((o + self.bank_data.cur_position) as usize), None => None })", ["C06"])],
+               ensures=[C("outp_plus_position", "res == (match bank_of(defs, self.bank_ref).output_offset { Some(o) => Some((o + self.bank_data.cur_position) as usize), None => None })", ["C06"]),
+                        C("no_wrap_under_the_guard_of_D9c", "bank_of(defs, self.bank_ref).output_offset is Some ==> bank_of(defs, self.bank_ref).output_offset->0 + self.bank_data.cur_position <= usize::MAX", ["C06", "C19"])],
                inserts=[Insert("        Some(bank.output_offset? + self.bank_data.cur_position)", "        proof { if bank.output_offset is Some { assume(bank.output_offset->0 + self.bank_data.cur_position <= usize::MAX); } }\n", where="before", finding="D9c",
                                why="finding guard: outp + position overflows usize (known finding D9c)")])
 
